@@ -966,4 +966,226 @@ example : CleanArgs
     [.slice (.num (.i .i8)), .struct (.cons [65] [] false (.num (.i .int)) (.cons [66] [98, 101, 101] false .str .nil))] := by
   refine ⟨⟨⟨by decide, by decide⟩, ⟨by decide, by decide⟩, trivial⟩, by decide, ⟨⟨by decide, by decide⟩, trivial⟩, by decide, trivial⟩
 
+/-! ### store path -/
+
+theorem map_wrap0 (r : Res GV) : r.map (wrapPtr 0) = r := by
+  cases r <;> simp [Res.map, Res.bind, wrapPtr]
+
+/-- the spec conversion at a non-pointer type is the base conversion -/
+theorem spec_conv_base (v : JV) (t : GT) (hd : t.depth = 0) :
+    Spec.convertCallParameter v t = convB Spec.leaf v t.base := by
+  unfold Spec.convertCallParameter conv ptrWrap
+  simp [hd, map_wrap0]
+
+/-- primitive JavaScript values whose number payload (if any) is not a float32 -/
+def PrimNoF32 : JV → Prop
+  | .arr _ | .obj _ => False
+  | .num (.f32 _) => False
+  | _ => True
+
+/-- **C16.store_exact_partial** (bool / string / interface{} / float64 element types).  For every primitive value
+    (float32 payloads excluded) a write into a bridged `[]bool`, `[]string`, `[]interface{}` or `[]float64`
+    (same for maps and arrays) stores exactly what the checked call conversion delivers, outside the listed
+    store regions.
+    Full statement, NOT proved here: the same for every numeric element type, i.e.
+    `∀ v t, WFV v → devStore v t = [] → toReflectValue v t = Spec.convertCallParameter v t`; the remaining cases
+    (float64 → integer kinds through toIntegerFloat / number(), float64 → float32 range test) need order
+    lemmas relating `F64.lt` to integer comparison and are covered by witnesses + correspondence only. -/
+theorem store_exact_partial (v : JV) (t : GT) (hp : PrimNoF32 v)
+    (ht : t = .bool ∨ t = .str ∨ t = .any ∨ t = .num .f64) (hdev : devStore v t = []) :
+    toReflectValue v t = Spec.convertCallParameter v t := by
+  rcases ht with rfl | rfl | rfl | rfl
+  · -- bool
+    rw [spec_conv_base _ _ rfl]
+    cases v with
+    | arr es => exact absurd hp (by simp [PrimNoF32])
+    | obj ps => exact absurd hp (by simp [PrimNoF32])
+    | num n =>
+      cases n with
+      | f32 x => exact absurd hp (by simp [PrimNoF32])
+      | f64 x =>
+        have hf : fracPositive x = false := by
+          cases h : fracPositive x
+          · rfl
+          · simp [devStore, h] at hdev
+        unfold toReflectValue; simp [hf, GT.base, convB]
+      | int k i => unfold toReflectValue; simp [GT.base, convB]
+    | undef => unfold toReflectValue; simp [GT.base, convB]
+    | null => unfold toReflectValue; simp [GT.base, convB]
+    | bool b => unfold toReflectValue; simp [GT.base, convB]
+    | str s => unfold toReflectValue; simp [GT.base, convB]
+  · -- string
+    rw [spec_conv_base _ _ rfl]
+    cases v with
+    | arr es => exact absurd hp (by simp [PrimNoF32])
+    | obj ps => exact absurd hp (by simp [PrimNoF32])
+    | num n =>
+      cases n with
+      | f32 x => exact absurd hp (by simp [PrimNoF32])
+      | f64 x =>
+        have hf : fracPositive x = false := by
+          cases h : fracPositive x
+          · rfl
+          · simp [devStore, h] at hdev
+        unfold toReflectValue; simp [hf, GT.base, convB, jsToString, Spec.leaf]
+      | int k i => unfold toReflectValue; simp [GT.base, convB, jsToString, Spec.leaf]
+    | undef => unfold toReflectValue; simp [GT.base, convB, jsToString]
+    | null => unfold toReflectValue; simp [GT.base, convB, jsToString]
+    | bool b => unfold toReflectValue; simp [GT.base, convB, jsToString]
+    | str s => unfold toReflectValue; simp [GT.base, convB, jsToString]
+  · -- interface{}
+    rw [spec_conv_base _ _ rfl]
+    cases v with
+    | arr es => exact absurd hp (by simp [PrimNoF32])
+    | obj ps => exact absurd hp (by simp [PrimNoF32])
+    | undef => simp [devStore] at hdev
+    | null => simp [devStore] at hdev
+    | num n => unfold toReflectValue; simp [GT.base, convB, exportV, Res.map, Res.bind, asAny, Spec.leaf]
+    | bool b => unfold toReflectValue; simp [GT.base, convB, exportV, Res.map, Res.bind, asAny, Spec.leaf]
+    | str s => unfold toReflectValue; simp [GT.base, convB, exportV, Res.map, Res.bind, asAny, Spec.leaf]
+  · -- float64
+    rw [spec_conv_base _ _ rfl]
+    cases v with
+    | arr es => exact absurd hp (by simp [PrimNoF32])
+    | obj ps => exact absurd hp (by simp [PrimNoF32])
+    | undef => simp [devStore] at hdev
+    | null => simp [devStore] at hdev
+    | bool b => simp [devStore] at hdev
+    | str s => simp [devStore] at hdev
+    | num n =>
+      cases n with
+      | f32 x => exact absurd hp (by simp [PrimNoF32])
+      | f64 x => unfold toReflectValue; simp [toFloat, GT.base, convB, Spec.leaf, Spec.convertNumeric, Res.map, Res.bind]
+      | int k i =>
+        have hs : Spec.sameNumber (.int k i) (ofInt i) = true := by
+          cases h : Spec.sameNumber (.int k i) (ofInt i)
+          · simp only [devStore] at hdev; unfold toReflectValue at hdev; simp [toFloat, isOk, h] at hdev
+          · rfl
+        unfold toReflectValue; simp [toFloat, GT.base, convB, Spec.leaf, Spec.convertNumeric, Res.map, Res.bind, hs]
+
+theorem ofInt_small' (i : Int) (h : i.natAbs < 2^53) : ofInt i = .fin (decide (i < 0)) i.natAbs 0 := by
+  simp [ofInt, h]
+
+theorem toIntegerFloat_int (s : Bool) (a : Nat) : toIntegerFloat (.fin s a 0) = .fin s a 0 := by
+  unfold toIntegerFloat
+  simp only [isInf, isNaN, Bool.false_eq_true, if_false]
+  split <;> simp [floor, ceil, isIntegral]
+
+theorem spec_small_int (pk k : IK) (i : Int) :
+    Spec.convertCallParameter (.num (.int pk i)) (.num (.i k)) =
+      if k.lo ≤ i ∧ i ≤ k.hi then .ok (.num (.int k i)) else .rangeErr := by
+  rw [spec_conv_base _ _ rfl]
+  simp only [GT.base, convB, Spec.leaf, Spec.convertNumeric, Spec.exactInt?]
+  split <;> simp [Res.map, Res.bind]
+
+/-- comparisons of a small integer double with ±2^63, 0 and 2^64 -/
+theorem small_cmp (s : Bool) (a : Nat) (ha : a < 2^53) :
+    lt (.fin s a 0) negTwo63 = false ∧ lt two63 (.fin s a 0) = false ∧ lt two64 (.fin s a 0) = false ∧
+    le two63 (.fin s a 0) = false ∧ le (.fin s a 0) negTwo63 = false ∧
+    lt (.fin s a 0) zero = decide (s = true ∧ a ≠ 0) := by
+  cases s <;> simp [lt, le, cmpReal, alignInt, negTwo63, two63, two64, zero]
+  all_goals (repeat' constructor)
+  all_goals (try omega)
+  all_goals (repeat' split)
+  all_goals (try omega)
+  all_goals (try simp)
+  all_goals (try omega)
+
+theorem goInt64_small (s : Bool) (a : Nat) (ha : a < 2^53) :
+    goInt64 (.fin s a 0) = if s then -(a : Int) else (a : Int) := by
+  have ht : truncInt (.fin s a 0) = if s then -(a : Int) else (a : Int) := by simp [truncInt, truncAbs]
+  simp only [goInt64, ht]
+  cases s <;> simp <;> omega
+
+theorem goUint64_small (a : Nat) (ha : a < 2^53) : goUint64 (.fin false a 0) = (a : Int) := by
+  have h1 : truncAbs a 0 = a := by simp [truncAbs]
+  unfold goUint64
+  simp only [h1]
+  split
+  · rfl
+  · rename_i h; exfalso; apply h
+    calc (a : Int) < ((2^53 : Nat) : Int) := by exact_mod_cast ha
+      _ ≤ 2^64 := by decide
+
+theorem range_if (k : IK) (i : Int) (r : Res GV) :
+    (if i < k.lo ∨ i > k.hi then Res.rangeErr else r) = if k.lo ≤ i ∧ i ≤ k.hi then r else Res.rangeErr := by
+  by_cases h : k.lo ≤ i ∧ i ≤ k.hi
+  · have : ¬ (i < k.lo ∨ i > k.hi) := by omega
+    simp [h, this]
+  · have : (i < k.lo ∨ i > k.hi) := by omega
+    simp [h, this]
+
+theorem lo64 : IK.i64.lo = -(2^63) ∧ IK.int.lo = -(2^63) ∧ IK.i64.hi = 2^63 - 1 ∧ IK.int.hi = 2^63 - 1 ∧
+    IK.u64.lo = 0 ∧ IK.uint.lo = 0 ∧ IK.u64.hi = 2^64 - 1 ∧ IK.uint.hi = 2^64 - 1 := by decide
+
+theorem signed_abs (i : Int) : (if decide (i < 0) = true then -(i.natAbs : Int) else (i.natAbs : Int)) = i := by
+  by_cases h : i < 0 <;> simp [h] <;> omega
+
+/-- **C16.store_exact_partial** (integers).  For every integer-kinded number below 2^53 in magnitude – every
+    integer a script can denote exactly – and EVERY Go integer element type, a write into a bridged slice, array
+    or map stores exactly that integer or throws RangeError (since fix bb377a4), whatever Go kind carries the
+    number and whichever of the three internal routes (direct payload, Value.number(), toIntegerFloat) is taken. -/
+theorem store_exact_small_int (pk k : IK) (i : Int) (hi : i.natAbs < 2^53) :
+    toReflectValue (.num (.int pk i)) (.num (.i k)) = Spec.convertCallParameter (.num (.int pk i)) (.num (.i k)) := by
+  rw [spec_small_int]
+  have hof := ofInt_small' i hi
+  obtain ⟨c1, c2, c3, c4, c5, c6⟩ := small_cmp (decide (i < 0)) i.natAbs hi
+  have hg := goInt64_small (decide (i < 0)) i.natAbs hi
+  rw [signed_abs] at hg
+  have hlo := lo_ge k
+  have hhi := hi_le k
+  -- the value Value.number().int64 yields, for every payload kind
+  have hnum : numberInt64 (.num (.int pk i)) = some i := by
+    unfold numberInt64
+    have hv : (toFloat (.num (.int pk i))).map (fun f =>
+        if isZero f then 0 else if isNaN f then 0 else if le two63 f then 2^63 - 1
+        else if le f negTwo63 then -(2^63) else goInt64 f) = some i := by
+      simp only [toFloat, Option.map, hof, c4, c5, hg, isNaN, Bool.false_eq_true, if_false]
+      by_cases h0 : i = 0
+      · subst h0; simp [isZero]
+      · have : i.natAbs ≠ 0 := by omega
+        cases hn : i.natAbs with
+        | zero => omega
+        | succ n => simp [isZero]
+    cases pk <;> simp only [hv]
+  unfold toReflectValue
+  simp only [Bool.false_eq_true, if_false]
+  cases k <;> simp only [toFloat, hof, toIntegerFloat_int, c1, c2, c3, c6, hg, hnum, Bool.or_self, Bool.false_eq_true, if_false]
+  case i8 => exact range_if _ _ _
+  case i16 => exact range_if _ _ _
+  case i32 => exact range_if _ _ _
+  case u8 => exact range_if _ _ _
+  case u16 => exact range_if _ _ _
+  case u32 => exact range_if _ _ _
+  case i64 =>
+    have : IK.i64.lo ≤ i ∧ i ≤ IK.i64.hi := by rw [lo64.1, lo64.2.2.1]; omega
+    rw [if_pos this]
+  case int =>
+    have : IK.int.lo ≤ i ∧ i ≤ IK.int.hi := by rw [lo64.2.1, lo64.2.2.2.1]; omega
+    rw [if_pos this]
+  case u64 =>
+    rw [lo64.2.2.2.2.1, lo64.2.2.2.2.2.2.1]
+    by_cases hn : i < 0
+    · have h1 : ¬ (0 ≤ i ∧ i ≤ 2^64 - 1) := by omega
+      have h2 : i.natAbs ≠ 0 := by omega
+      simp [hn, h1, h2]
+      omega
+    · have h1 : (0 ≤ i ∧ i ≤ 2^64 - 1) := by omega
+      have hu := goUint64_small i.natAbs hi
+      have ha : (i.natAbs : Int) = i := by omega
+      simp [hn, h1, hu, ha]
+      omega
+  case uint =>
+    rw [lo64.2.2.2.2.2.1, lo64.2.2.2.2.2.2.2]
+    by_cases hn : i < 0
+    · have h1 : ¬ (0 ≤ i ∧ i ≤ 2^64 - 1) := by omega
+      have h2 : i.natAbs ≠ 0 := by omega
+      simp [hn, h1, h2]
+      omega
+    · have h1 : (0 ≤ i ∧ i ≤ 2^64 - 1) := by omega
+      have hu := goUint64_small i.natAbs hi
+      have ha : (i.natAbs : Int) = i := by omega
+      simp [hn, h1, hu, ha]
+      omega
+
 end OttoVerif.C16.Thm
